@@ -60,6 +60,18 @@ CHECKS = {
              'tract order / shared description, Tract.lots and .ilots agree with it on rendered lists.',
         note='Numbers in S come from boundary sets (formatting concretises them). Chained ranges (a - b - c) are outside the oracle. '
              'A warning on an equal-endpoint "range" (2 - 2) is tolerated (the statement only requires it for descending ranges).'),
+    'C06': dict(
+        engine='S+M', category='other', design_ref='DESIGN.md §4 C06 and §10',
+        technique='CrossHair symbolic execution of the real Tract / TractParser / LotUnpacker on descriptions assembled from a canonical '
+                  'element vocabulary (symbolic choice of elements, separators, configuration) against an element-wise oracle; z3 exact '
+                  'bounded regex model for the live extraction patterns on element . separator . element',
+        text='Every description of 2 (thorough: 3) elements out of 14 (single lot, lot range, lots with (acreage) / [acreage], '
+             'aliquot-of-lot(s) with and without "of", aliquot chains, ALL; repeats included) x 4 separators x 5 configurations: lots then '
+             'aliquots equal the concatenation of what each element yields alone; lot_acres is the union; lots_qqs = lots + qqs; ilots '
+             'mirrors lots; a dup_lot / dup_qq warning is present exactly when a lot / aliquot occurs twice. M: aliquot_unpacker_regex and '
+             'multilot_with_aliquot_regex take comma / semicolon / ";;" separated canonical elements one at a time.',
+        note='Two deviations are known findings and reported as KNOWN-FINDING: a line break does not separate an aliquot from what follows '
+             '(by design for wrapped text) and ALL is only recognised at the end of the text. Elements are canonical text (spelling is C07).'),
     'C07': dict(
         engine='M+S', category='model_checking', design_ref='DESIGN.md §4 C07 and §10',
         technique='SMT (z3): exact bounded encoding of CPython matching of the 12 live aliquot scrubber patterns, half_plus_q_regex and '
